@@ -39,8 +39,8 @@ PROPS = {
         "explanation": "numeric kernels of steel-core extracted verbatim and checked against mathematical-integer specs with Kani",
     },
     "C07": {
-        "units": ["num", "vm", "pers"],
-        "trusted_base": COMMON_TB + ["units/num/prelude.rs (see C10)"],
+        "units": ["num", "vm", "pers", "unw"],
+        "trusted_base": COMMON_TB + ["units/num/prelude.rs (see C10)", "units/unw/prelude_extra.rs (+ units/vm/prelude.rs): `VmCore::vm` (the interpreter loop) as the ghost callee of the unwinding loop - records the engine state at every entry, fails or succeeds as scripted, a successful evaluation pops the frames it owns; StackFrameAttachments with its two real fields (checked against the real struct); continuation marks recorded, not closed; error -> value conversion as a marker value",],
         "assumptions": [
             "only panic-freedom of the numeric built-ins on every scalar argument kind and magnitude is decided; arbitrary source text, native stack overflow and engine recovery after errors are NOT covered",
             "collection-valued arguments (lists, vectors, strings) are not generated",
@@ -98,8 +98,9 @@ PROPS = {
         "explanation": "reclamation side of the same free-list contracts",
     },
     "C09": {
-        "units": ["vm", "anl", "cgen"],
+        "units": ["vm", "anl", "cgen", "pgm"],
         "trusted_base": COMMON_TB + [
+"units/pgm/prelude.rs: Instruction with its three real fields, InternedString as a number + ghost flag `text starts with #%prim.`, the interned symbol statics as pairwise distinct numbers; real steel-gen OpCode, u24 extracted",
             "units/cgen/prelude.rs: reduced AST, Analysis maps as association lists, std Vec inside code_gen.rs as a typed 16-slot array (assumed contract of Vec), `CodeGenerator::visit` as ghost callee appending a concrete number of marker instructions, specialize_* helpers return None (jit2 build; checked textually), println! no-op; u24 / LabeledInstruction / CallKind / SemanticInformation / ... extracted verbatim, real steel-gen OpCode",
             "units/anl/prelude.rs: reduced AST (real field names; accessors extracted verbatim from steel-parser), AnalysisPass with the real traversal fields (list checked against the real struct every run) + ghost event log, quickscope::ScopeMap / FxHashMap / SmallVec / ThinVec as exact finite models; `self.visit` is the CALLEE CONTRACT of the recursive visitor (records the state it is called in; returns with tail flag, escape flag, stack offset and context depth unchanged, defining context unchanged or cleared); visit_define_without_body abstracted",
             "units/vm/prelude.rs: VmCore/SteelThread with only the touched fields (field lists checked against the real structs every run), frame stack with a ghost count of older frames, reduced SteelVal/ByteCodeLambda, RootedInstructions as a raw slice pointer, message-less stop!",
@@ -113,14 +114,16 @@ PROPS = {
         "explanation": "frame-reuse contract of the interpreter's tail-call handlers and the depth-limit check",
     },
     "C01": {
-        "units": ["vm", "anl", "cev", "cgen", "cset", "num"],
+        "units": ["vm", "anl", "cev", "cgen", "cset", "num", "unw", "pgm"],
         "trusted_base": COMMON_TB + [
+"units/pgm/prelude.rs: Instruction with its three real fields, InternedString as a number + ghost flag `text starts with #%prim.`, the interned symbol statics as pairwise distinct numbers; real steel-gen OpCode, u24 extracted",
             "units/cgen/prelude.rs: reduced AST, Analysis maps as association lists, std Vec inside code_gen.rs as a typed 16-slot array (assumed contract of Vec), `CodeGenerator::visit` as ghost callee appending a concrete number of marker instructions, specialize_* helpers return None (jit2 build; checked textually), println! no-op; u24 / LabeledInstruction / CallKind / SemanticInformation / ... extracted verbatim, real steel-gen OpCode",
 "units/cset/prelude.rs: reduced AST (a sub-expression is a leaf or an identifier; node structs with the real field names), quickscope::ScopeSet / FxHashSet / SmallVec as exact finite models, `CollectSet::visit` as the callee contract of the recursive visitor (records sub-expression and scope state, leaves the scope stack unchanged)",
             "units/cev/prelude.rs: reduced AST, ConstantEnv as a ghost (one symbolic binding, lookups/unbinds counted), FxHashSet as a 2-slot set model, `ConstantEvaluator::visit` as ghost callee returning its argument; TokenType / Paren / ParenMod / InternedNumber / OptLevel / SteelVal::is_truthy / If::new / the ConstantEvaluator struct are extracted verbatim",
             "units/anl/prelude.rs: reduced AST (real field names; accessors extracted verbatim from steel-parser), AnalysisPass with the real traversal fields (list checked against the real struct every run) + ghost event log, quickscope::ScopeMap / FxHashMap / SmallVec / ThinVec as exact finite models; `self.visit` is the CALLEE CONTRACT of the recursive visitor (records the state it is called in; returns with tail flag, escape flag, stack offset and context depth unchanged, defining context unchanged or cleared); visit_define_without_body abstracted",
             "units/vm/prelude.rs: VmCore/SteelThread with only the touched fields (field lists checked against the real structs every run), frame stack with a ghost count of older frames, reduced SteelVal/ByteCodeLambda, RootedInstructions as a raw slice pointer, message-less stop!",
             "real steel-gen OpCode; u24/DenseInstruction/StackFrame/STACK_LIMIT extracted verbatim",
+            "units/unw/prelude_extra.rs (+ units/vm/prelude.rs): `VmCore::vm` (the interpreter loop) as the ghost callee of the unwinding loop - records the engine state at every entry, fails or succeeds as scripted, a successful evaluation pops the frames it owns; StackFrameAttachments with its two real fields (checked against the real struct); continuation marks recorded, not closed; error -> value conversion as a marker value",
         ],
         "assumptions": [
             "only local encoding / stack-slot steps are decided: operand encoding (u24), call set-up (exactly the arguments written at the call site, rest-argument collection), local read / move / assign; the 15 AST passes, code generation, peephole rewrites and the interpreter match as a whole are NOT covered",
@@ -128,8 +131,9 @@ PROPS = {
         "explanation": "call set-up and local-variable slot handlers of VmCore under contract",
     },
     "C17": {
-        "units": ["intr"],
+        "units": ["intr", "unw"],
         "trusted_base": COMMON_TB + [
+"units/unw/prelude_extra.rs (+ units/vm/prelude.rs): `VmCore::vm` (the interpreter loop) as the ghost callee of the unwinding loop - records the engine state at every entry, fails or succeeds as scripted, a successful evaluation pops the frames it owns; StackFrameAttachments with its two real fields (checked against the real struct); continuation marks recorded, not closed; error -> value conversion as a marker value",
             "units/intr/prelude.rs: AtomicCell as a plain cell, reduced SteelThread/Synchronizer/VmCore (Synchronizer field list checked against the real struct), std::thread::park shadowed by a ghost stub that resumes after a fixed number of parks",
         ],
         "assumptions": [
